@@ -32,7 +32,7 @@ import (
 )
 
 func main() {
-	Main("C06", check, func(c *Ctx) (string, []byte, error) { return tabgen.Gen(c.Repo) }, rendergen.Gen, stateGen)
+	Main("C06", check, stateGen, func(c *Ctx) (string, []byte, error) { return tabgen.Gen(c.Repo) }, rendergen.Gen)
 }
 
 const imp = "From Sdfx Require Import Render.C06Corr.\nOpen Scope float_scope."
